@@ -35,3 +35,81 @@ pub fn buffer_max_compact_capacity(num_words: usize) -> usize {
 
 /// The hard capacity limit of a buffer.
 pub const BUFFER_MAX_CAPACITY: usize = Buffer::MAX_CAPACITY;
+
+/// A handle that lets verification tooling drive the crate-private [Buffer] operation by
+/// operation (each method forwards to the method of the same name) and convert it into a `UBig`.
+pub struct BufferHandle(Buffer);
+
+impl BufferHandle {
+    pub fn allocate(num_words: usize) -> Self {
+        BufferHandle(Buffer::allocate(num_words))
+    }
+    pub fn allocate_exact(capacity: usize) -> Self {
+        BufferHandle(Buffer::allocate_exact(capacity))
+    }
+    pub fn from_words(words: &[crate::Word]) -> Self {
+        BufferHandle(Buffer::from(words))
+    }
+    pub fn capacity(&self) -> usize {
+        self.0.capacity()
+    }
+    pub fn len(&self) -> usize {
+        self.0.len()
+    }
+    pub fn words(&self) -> &[crate::Word] {
+        &self.0
+    }
+    pub fn ensure_capacity(&mut self, num_words: usize) {
+        self.0.ensure_capacity(num_words)
+    }
+    pub fn ensure_capacity_exact(&mut self, capacity: usize) {
+        self.0.ensure_capacity_exact(capacity)
+    }
+    pub fn shrink_to_fit(&mut self) {
+        self.0.shrink_to_fit()
+    }
+    pub fn push(&mut self, word: crate::Word) {
+        self.0.push(word)
+    }
+    pub fn push_resizing(&mut self, word: crate::Word) {
+        self.0.push_resizing(word)
+    }
+    pub fn push_zeros(&mut self, n: usize) {
+        self.0.push_zeros(n)
+    }
+    pub fn push_zeros_front(&mut self, n: usize) {
+        self.0.push_zeros_front(n)
+    }
+    pub fn push_slice(&mut self, words: &[crate::Word]) {
+        self.0.push_slice(words)
+    }
+    pub fn pop_zeros(&mut self) {
+        self.0.pop_zeros()
+    }
+    pub fn truncate(&mut self, len: usize) {
+        self.0.truncate(len)
+    }
+    pub fn erase_front(&mut self, n: usize) {
+        self.0.erase_front(n)
+    }
+    pub fn clone_from_slice(&mut self, src: &[crate::Word]) {
+        self.0.clone_from_slice(src)
+    }
+    pub fn clone_buffer(&self) -> Self {
+        BufferHandle(self.0.clone())
+    }
+    pub fn clone_from_buffer(&mut self, src: &Self) {
+        self.0.clone_from(&src.0)
+    }
+    pub fn into_boxed_slice(self) -> alloc::boxed::Box<[crate::Word]> {
+        self.0.into_boxed_slice()
+    }
+    /// `Repr::from_buffer`
+    pub fn into_ubig(self) -> UBig {
+        UBig(crate::repr::Repr::from_buffer(self.0))
+    }
+    /// `Repr::into_buffer`
+    pub fn from_ubig(x: UBig) -> Self {
+        BufferHandle(x.0.into_buffer())
+    }
+}
